@@ -52,6 +52,9 @@ NoTerm(u) == {Run(<<Doc("md", tfm, None, "no", <<Kind("pass", "d1t1"), NoTermTc(
                   t \in {None, 1}, tfm \in {None, 1}} \ {Run(<<Doc("md", None, None, "no", <<Kind("pass", "d1t1"), NoTermTc("d1t2", None), Kind("pass", "d1t3")>>)>>, None, <<>>, <<>>, "cli", FALSE)}
 ScenC14(u) == {Run(<<Doc("md", tfm, None, "no", C14Tests(p, t))>>, tcli, <<>>, <<>>, "cli", FALSE) :
                  p \in 1..3, t \in {None, 1, 6}, tfm \in {None, 0, 1, 6}, tcli \in {None, 0, 1, 6}}
+           \* a per-test timeout from the document defaults (defaults.timeout), alone and against an inline one and a document limit
+           \cup {Run(<<[Doc("md", tfm, None, "no", C14Tests(p, t)) EXCEPT !.tdef = td]>>, None, <<>>, <<>>, "cli", FALSE) :
+                 p \in 1..3, t \in {None, 1, 6}, td \in {1, 6}, tfm \in {None, 1, 6}}
            \* the document limit elapses BETWEEN two commands (scrut waits 2 ticks before the second one)
            \cup {Run(<<Doc("md", tfm, None, "no", <<Kind("pass", "d1t1"), [Kind("pass", "d1t2") EXCEPT !.wait = 2],
                                                       SlowTc("d1t3", None, "stdout")>>)>>, tcli, <<>>, <<>>, "cli", FALSE) :
